@@ -295,7 +295,9 @@ def rule_padded_size_maintained(ck, m, rid):
                   f"{f.name}: the padded size must be computed by the stored (resolved) padding from the current render size; found `{short(v, 70)}`",
                   stmt=f"{f.name}: self._padded_size = self._padding.get_padded_size(<current size>)")
     ps = [st for t, st in stores_in(ast.Module(body=itf.body, type_ignores=[])) if (dotted(t) or "") == "self._padded_size"]
-    ck.ob(rid, itf, len(ps) == 1 and norm(ps[0].value) == "self._padding.get_padded_size(renderable_data.size)" and ps[0].lineno < yline,
+    # (`renderable_data` is the very object stored in self._renderable_data - R3 checks the aliasing - so either spelling names the data's size)
+    ck.ob(rid, itf, len(ps) == 1 and norm(ps[0].value) in ("self._padding.get_padded_size(renderable_data.size)", "self._padding.get_padded_size(self._renderable_data.size)") and ps[0].lineno < yline
+          and (norm(ps[0].value).endswith("(renderable_data.size)") or any(isinstance(s_, ast.Assign) and any(norm(t_) == "self._renderable_data" for t_ in s_.targets) and s_.lineno < ps[0].lineno for s_ in itf.body)),
           "_iterate must initialise self._padded_size from the stored padding and the data's size before the dummy yield", stmt="_iterate: initial _padded_size")
     ck.expect(n6 >= 2, "setters that change padding/size not found")
 
